@@ -1337,6 +1337,49 @@ def rule_comparator_ties(model):
                       'the stable sort must keep in their original order '
                       '(and reverse is no longer the exact reverse)',
                       node=rets[0] if rets else fn.node, ctx=fn)
+    # a name that says "nocase" selects a function that folds case: in the
+    # if/elif chain of make_sortfunctions or in a module-level table
+    m_ = mk.module
+    pairs = []
+    for f in model.closure(mk):
+        for x in own_nodes(f.node):
+            if isinstance(x, ast.If):
+                names_ = [c.value for c in ast.walk(x.test)
+                          if isinstance(c, ast.Constant) and
+                          isinstance(c.value, str)]
+                sel = [y.value for y in x.body
+                       if isinstance(y, (ast.Assign, ast.Return)) and
+                       isinstance(y.value, ast.Name)]
+                for nm in names_:
+                    for v in sel:
+                        pairs.append((f.where, x, nm, v.id))
+    for x in ast.walk(m_.tree):
+        if isinstance(x, ast.Dict):
+            for k, v in zip(x.keys, x.values):
+                if isinstance(k, ast.Constant) and isinstance(
+                        k.value, str) and isinstance(v, ast.Name):
+                    pairs.append((m_.short + ':<module>', x, k.value, v.id))
+        if isinstance(x, ast.Call) and isinstance(x.func, ast.Name) and \
+                x.func.id == 'dict':
+            for kw_ in x.keywords:
+                if kw_.arg and isinstance(kw_.value, ast.Name):
+                    pairs.append((m_.short + ':<module>', x, kw_.arg,
+                                  kw_.value.id))
+    for where, node, nm, fn_ in pairs:
+        if 'nocase' not in nm and 'nocase' not in fn_:
+            continue
+        if not any(k in nm for k in ('nocase', 'locale', 'strcoll', 'cmp')):
+            continue
+        n += 1
+        ok = ('nocase' in nm) == ('nocase' in fn_)
+        r.instance(where, f'{nm!r} -> {fn_}', 'agrees' if ok
+                   else 'NAME AND FUNCTION DISAGREE')
+        if not ok:
+            r.finding(where, f'{nm!r} -> {fn_}', f'the sort function name '
+                      f'{nm!r} selects {fn_}(): a "nocase" name must select '
+                      'a case-folding comparison (and only such a name '
+                      'may), otherwise keys that differ in case only are '
+                      'ordered by case', node=node)
     if n < 1:
         raise AnalysisError('C13.R8: the nocase comparison function was not '
                             'found in make_sortfunctions')
